@@ -650,6 +650,8 @@ func checkStalenessHasReason(p *core.Prog, r *core.Result) {
 			continue
 		}
 		fnHost := car.phi.Parent()
+		// the verdict as it is carried on behind the loop: the loop's phi and every later merge that takes it in
+		carrierLike := map[ssa.Value]bool{car.phi: true}
 		core.Instrs(fnHost, func(in ssa.Instruction) {
 			ph, ok := in.(*ssa.Phi)
 			if !ok || ph == car.phi || core.Reaches(ph.Block(), ph.Block(), false) {
@@ -657,9 +659,17 @@ func checkStalenessHasReason(p *core.Prog, r *core.Result) {
 			}
 			fromCarrier, extraFalse := false, false
 			pfs := p.PhiEdgeFacts(ph)
-			for i, e := range ph.Edges {
-				if core.Unwrap(e) == ssa.Value(car.phi) {
+			for _, e := range ph.Edges {
+				if carrierLike[core.Unwrap(e)] {
 					fromCarrier = true
+				}
+			}
+			if fromCarrier {
+				carrierLike[ph] = true
+			}
+			for i, e := range ph.Edges {
+				if carrierLike[core.Unwrap(e)] {
+					continue
 				} else if b, isConst := core.ConstBool(e); isConst && !b {
 					// a fourth reason: a dependency the last execution recorded is no longer declared
 					if i < len(pfs) && removedDependencyFact(p, pfs[i]) {
